@@ -1,5 +1,5 @@
 """C18: a link never carries more than its bandwidth in a tick; down links carry nothing."""
-from pyvc.contracts import contract, spec, inline, attr_types, writers
+from pyvc.contracts import contract, spec, inline, attr_types, writers, dispatch_contract
 
 B = "src/primaite/simulator/network/hardware/base.py"
 D = "src/primaite/simulator/network/transmission/data_link_layer.py"
@@ -23,12 +23,27 @@ contract(f"{D}::Frame.set_sent_timestamp", verify=False,
 # the global invariant every frame handler is assumed to keep (justified by: the only writers of current_load /
 # bandwidth are the functions proved below -- see the writers() rules -- and every transmit is preceded by the
 # admission check, proved in the two send_frame functions)
-contract(f"{B}::WiredNetworkInterface.receive_frame", verify=False,
-         note="assumed for every override (NIC, SwitchPort, RouterInterface): may do anything, including sending frames "
-              "over any link (also the delivering one), but keeps every link within its bandwidth",
-         requires=["all_links_ok()"],
-         ensures=["all_links_ok()", "forall_obj(l, Link, l.bandwidth == old(l.bandwidth))"],
-         modifies=["heap"], allocates=True)
+RECV_B = dict(
+    note="assumed for every override (NIC, SwitchPort, RouterInterface, wireless): may do anything, including sending frames "
+         "over any link (also the delivering one), but keeps every link within its bandwidth; the three wired overrides "
+         "are proved to do so given the same assumption one level up (Node.receive_frame)",
+    requires=["all_links_ok()"],
+    ensures=["all_links_ok()", "forall_obj(l, Link, l.bandwidth == old(l.bandwidth))"],
+    modifies=["heap"], allocates=True)
+dispatch_contract(f"{B}::WiredNetworkInterface.receive_frame", **RECV_B)
+dispatch_contract(f"{B}::NetworkInterface.receive_frame", **RECV_B)
+# one level up: what a node does with a delivered frame (HostNode, Router, Firewall, Switch ... override it)
+dispatch_contract(f"{B}::Node.receive_frame",
+                  requires=["all_links_ok()"],
+                  ensures=["all_links_ok()", "forall_obj(l, Link, l.bandwidth == old(l.bandwidth))"],
+                  emits=[("deliver", ["self", "frame", "frame.ip.ttl"])],
+                  modifies=["heap"], allocates=True)
+contract(f"{B}::NetworkInterface._capture_nmne", verify=False, note="event bookkeeping of this interface only",
+         ensures=[], modifies=["self.nmne{*}"])
+contract(f"{B}::NetworkInterface._capture_traffic", verify=False, note="traffic bookkeeping of this interface only",
+         ensures=[], modifies=["self.traffic{*}"])
+contract(f"{D}::Frame.set_received_timestamp", verify=False, note="stamps the frame; its serialised size may change",
+         ensures=["self._g_size >= 0"], modifies=["self.received_timestamp", "self._g_size"])
 
 contract(f"{B}::NetworkInterface.send_frame", verify=False,
          note="traffic / NMNE bookkeeping of the sending interface only",
@@ -55,8 +70,7 @@ contract(f"{B}::Link.pre_timestep",
 
 contract(f"{B}::Link.endpoint_down",
          props=["C18"],
-         requires=["link_ok(self)"],
-         ensures=[("still_ok", "link_ok(self)"),
+         ensures=[("still_ok", "implies(old(link_ok(self)), link_ok(self))"),
                   ("down_means_empty", "implies(not (self.endpoint_a.enabled and self.endpoint_b.enabled), self.current_load == 0)")],
          modifies=["self.current_load"])
 
@@ -82,3 +96,68 @@ for key in (f"{B}::WiredNetworkInterface.send_frame", f"{S}::SwitchPort.send_fra
 writers("C18", "current_load", [f"{B}::Link.transmit_frame", f"{B}::Link.pre_timestep", f"{B}::Link.endpoint_down"],
         why="the link invariant is maintained by these three functions only")
 writers("C18", "bandwidth", [], why="a link's bandwidth is fixed at construction")
+
+contract(f"{B}::Link.endpoint_up", props=["C18"], ensures=[], modifies=[])
+
+# ---- receiving side: TTL and the enabled gate (C08 "every hop lowers the TTL, exhausted TTL is dropped"; C06/C12 "a disabled
+# interface delivers nothing"); also the proof that these overrides keep the global link invariant
+H = "src/primaite/simulator/network/hardware/nodes/host/host_node.py"
+RT = "src/primaite/simulator/network/hardware/nodes/network/router.py"
+inline(f"{D}::Frame.decrement_ttl")
+RECV_ENS = [
+    ("disabled_delivers_nothing", "implies(not old(self.enabled), result == False and unchanged() and n_events() == old(n_events()))"),
+    ("exhausted_ttl_dropped", "implies(old(frame.ip.ttl) - 1 < 1, result == False and n_events() == old(n_events()))"),
+    ("delivered_with_lower_ttl", "implies(result, event_kind(n_events() - 1) == ev('deliver') and event_arg(n_events() - 1, 2) == old(frame.ip.ttl) - 1)"),
+    ("links_ok", "all_links_ok()"),
+]
+RECV_REQ = ["all_links_ok()", "self._connected_node is not None", "frame.ip is not None"]
+contract(f"{S}::SwitchPort.receive_frame", props=["C08", "C06", "C18"], requires=RECV_REQ, ensures=RECV_ENS,
+         modifies=["heap"], allocates=True)
+contract(f"{H}::NIC.receive_frame", props=["C08", "C06", "C18"], requires=RECV_REQ,
+         ensures=RECV_ENS + [
+             # "handed to software only on the node that owns its destination": hosts accept a unicast frame only when it
+             # is addressed to this interface's MAC, a broadcast only for their own / the subnet broadcast address
+             ("accepts_only_own", "implies(result, old(frame.ethernet.dst_mac_addr == self.mac_address) if old(frame.ethernet.dst_mac_addr) != 'ff:ff:ff:ff:ff:ff'"
+                                  " else old(frame.ip.dst_ip_address == self.ip_address or frame.ip.dst_ip_address == self.ip_network.broadcast_address))")],
+         modifies=["heap"], allocates=True)
+contract(f"{RT}::RouterInterface.receive_frame", props=["C08", "C06", "C18"], requires=RECV_REQ, ensures=RECV_ENS,
+         modifies=["heap"], allocates=True)
+
+# ---- wireless channel -------------------------------------------------------------------------------------------------
+A = "src/primaite/simulator/network/airspace.py"
+# capacity of the channel a sender uses (AirSpace.get_frequency_max_capacity_mbps, by the frequency's name)
+spec("cap(air, name)", "(air.frequencies[name].data_rate_bps / (1024.0 * 1024.0)) if name in air.frequencies else 0.0")
+spec("chan_load(air, nic)", "air.bandwidth_load[nic.frequency.frequency_hz] if nic.frequency.frequency_hz in air.bandwidth_load else 0.0")
+
+contract(f"{A}::AirSpace.get_frequency_max_capacity_mbps", props=["C18"],
+         ensures=[("capacity", "result == cap(self, freq_name)")], modifies=[])
+contract(f"{A}::AirSpace.can_transmit_frame", props=["C18"],
+         requires=["self.bandwidth_load is not self.frequencies"],
+         ensures=[("admission", "result == (old(chan_load(self, sender_network_interface)) + frame._g_size"
+                                " <= cap(self, sender_network_interface.frequency.name))"),
+                  ("load_kept", "chan_load(self, sender_network_interface) == old(chan_load(self, sender_network_interface))"),
+                  ("channel_known", "sender_network_interface.frequency.frequency_hz in self.bandwidth_load")],
+         modifies=["self.bandwidth_load{*}"])
+contract(f"{A}::AirSpace.reset_bandwidth_load", props=["C18"],
+         ensures=[("loads_start_at_zero", "len(self.bandwidth_load) == 0")], modifies=["self.bandwidth_load"], allocates=True)
+contract(f"{A}::AirSpace.transmit", props=["C18"],
+         requires=["all_links_ok()", "sender_network_interface.frequency.frequency_hz in self.bandwidth_load", "frame._g_size >= 0",
+                   "chan_load(self, sender_network_interface) + frame._g_size <= cap(self, sender_network_interface.frequency.name)"],
+         ensures=[("links_ok", "all_links_ok()")],
+         emits=[("air_transmit", ["self", "frame"])],
+         modifies=["heap"], allocates=True,
+         loops={0: {"inv": [("links_ok", "all_links_ok()")], "modifies": ["heap"]}})
+contract(f"{A}::WirelessNetworkInterface.send_frame", props=["C18", "C06"],
+         requires=["all_links_ok()", "self._connected_node is not None", "frame._g_size >= 0",
+                   # distinct bookkeeping dictionaries (separate default_factory instances)
+                   "self.nmne is not self.airspace.bandwidth_load and self.traffic is not self.airspace.bandwidth_load",
+                   "self.nmne is not self.airspace.frequencies and self.traffic is not self.airspace.frequencies",
+                   "self.airspace.bandwidth_load is not self.airspace.frequencies"],
+         ensures=[("disabled_sends_nothing", "implies(not old(self.enabled), result == False and unchanged() and n_events() == old(n_events()))"),
+                  ("overflow_dropped", "implies(old(self.enabled) and old(frame.sent_timestamp) is not None"
+                                       " and old(chan_load(self.airspace, self) + frame._g_size > cap(self.airspace, self.frequency.name)),"
+                                       " result == False and n_events() == old(n_events()))"),
+                  ("links_ok", "all_links_ok()")],
+         modifies=["heap"], allocates=True)
+writers("C18", "bandwidth_load", [f"{A}::AirSpace.reset_bandwidth_load"],
+        why="channel loads are replaced only by the per-tick reset (element updates are in can_transmit_frame / transmit, proved above)")
